@@ -427,3 +427,35 @@ func Canon(p Path) Path {
 	r = append(r, p[:k]...)
 	return r
 }
+
+// WindOpen is the signed crossing number of the horizontal ray from q with the open
+// polyline p (no closing edge). For closed paths use WindPath. on reports q on the trace.
+// Like the winding number it is invariant under removal of a vertex that is exactly
+// collinear with its two neighbours (also for 180-degree spikes).
+func WindOpen(p Path, q P) (w int, on bool) {
+	n := len(p)
+	if n == 1 {
+		return 0, p[0] == q
+	}
+	for i := 0; i+1 < n; i++ {
+		a, b := p[i], p[i+1]
+		if a == b {
+			if a == q {
+				on = true
+			}
+			continue
+		}
+		s := CrossSign(a, b, q)
+		if s == 0 && between(a.X, b.X, q.X) && between(a.Y, b.Y, q.Y) {
+			on = true
+		}
+		if a.Y <= q.Y {
+			if b.Y > q.Y && s > 0 {
+				w++
+			}
+		} else if b.Y <= q.Y && s < 0 {
+			w--
+		}
+	}
+	return w, on
+}
